@@ -379,6 +379,18 @@ fn check_template(case: &Json, stats: &mut Stats) -> Verdict {
             );
         }
     }
+    if let Some(value) = case["value"].as_str() {
+        // the value the table's grouping has by the documented meaning of the operators (an assignment
+        // yields the value it stored), written as a literal
+        stats.eval();
+        let model = outcome_key(value);
+        if model != exp_key {
+            return fail(
+                format!("C14:template-value:{name}"),
+                format!("`{prelude}{expected}` gives [{exp_key}] but its grouping means [{model}]"),
+            );
+        }
+    }
     if got != exp_key {
         return fail(
             format!("C14:template:{name}"),
@@ -527,6 +539,19 @@ fn templates() -> Vec<Json> {
         t.push(tpl("assignment", &format!("{aop} right assoc with ="), ap, &format!("r := c {aop} d = 3; (r, *c, *d)"), &format!("r := (c {aop} (d = 3)); (r, *c, *d)"), &[&format!("r := ((c {aop} d) = 3); (r, *c, *d)")], true));
         // tokenisation: the compound operator is one token
         t.push(tpl("tokenisation", &format!("unspaced {aop}"), ap, &format!("r := c{aop}3; (r, *c)"), &format!("r := (c {aop} 3); (r, *c)"), &[], true));
+    }
+    // right-to-left chains: what flows up the chain is the value each assignment stored
+    let ap2 = "c := mut 5; d := mut 9; ";
+    for (aop, v) in [("=", 3i64), ("+=", 8), ("-=", 2), ("*=", 15), ("/=", 1), ("%=", 2), ("**=", 125), ("<<=", 40), (">>=", 0), ("&=", 1), ("|=", 7), ("^=", 6)] {
+        for (name, flat, expected, value) in [
+            ("then =", format!("r := c {aop} d = 3; (r, *c, *d)"), format!("r := (c {aop} (d = 3)); (r, *c, *d)"), format!("({v}, {v}, 3)")),
+            ("after =", format!("r := d = c {aop} 3; (r, *c, *d)"), format!("r := (d = (c {aop} 3)); (r, *c, *d)"), format!("({v}, {v}, {v})")),
+            ("after +=", format!("r := d += c {aop} 3; (r, *c, *d)"), format!("r := (d += (c {aop} 3)); (r, *c, *d)"), format!("({}, {v}, {})", 9 + v, 9 + v)),
+        ] {
+            let mut case = tpl("assignment", &format!("value of {aop} {name}"), ap2, &flat, &expected, &[], true);
+            case["value"] = json!(value);
+            t.push(case);
+        }
     }
     // multi-character operators are never split
     let tp = "m := mut 2; x := 6; y := 3; bs := [true, false]; ns := [6, 3]; ";
